@@ -131,7 +131,30 @@ def established_tags(node, base, fn):
     return res
 
 
-def check_function(ctx, fn, rule='R-TAGUNION', accept_pointer_pun=True):
+def _retag_follows(m, base, want):
+    """m is the target of a plain store `base->member = v;` and a later sibling statement stores the
+    member's tag, with no statement in between that reads a union member of the same object."""
+    st = m.parent
+    while st is not None and st.k in ('ImplicitCastExpr', 'ParenExpr'):
+        st = st.parent
+    if st is None or not is_assign(st) or st.op != '=' or _strip_casts(st.child('lhs')) is not m:
+        return False
+    blk = st.parent
+    if blk is None or blk.k != 'CompoundStmt':
+        return False
+    idx = next((i for i, x in enumerate(blk.c) if x is st), None)
+    for s in blk.c[idx + 1:]:
+        if s is None:
+            continue
+        if is_assign(s) and s.op == '=' and s.child('lhs').k == 'MemberExpr' and s.child('lhs').n == 'type' and _base_key(s.child('lhs')) == base:
+            r = _strip_casts(s.child('rhs'))
+            return r.k == 'DeclRefExpr' and r.dk == 'enum' and r.qn.split('::')[-1] == want
+        if any(x.k == 'MemberExpr' and x.rec == 'gdstk::Reference' and x.n in MEMBER_TAG and _base_key(x) == base for x in s.walk()):
+            return False
+    return False
+
+
+def check_function(ctx, fn, rule='R-TAGUNION', accept_pointer_pun=True, universe=None):
     """Every access to Reference::{cell,rawcell,name} happens where the tag is established to be the
     member's tag (pointer members cell|rawcell may pun each other when both are possible and the
     access is a plain pointer copy)."""
@@ -142,10 +165,15 @@ def check_function(ctx, fn, rule='R-TAGUNION', accept_pointer_pun=True):
         base = _base_key(m)
         # find the statement-level node for block-order reasoning
         tags = established_tags(m, base, fn)
+        if tags is not None and universe is not None:
+            tags = tags & universe  # the function only ever creates references of these kinds
         # a store of the member immediately preceded/followed by a tag store in the same block
         n += 1
         key = '%s/%s->%s@%d' % (fn.qn, base.split(':')[-1] if base else '?', m.n, m.id)
         want = MEMBER_TAG[m.n]
+        if (tags is None or tags != {want}) and _retag_follows(m, base, want):
+            ctx.ok(rule, key, m.loc(), 'member `%s` is stored and the tag is set to %s by a following statement of the same block (kind transition)' % (m.n, want))
+            continue
         if tags is None:
             ctx.violation(rule, key, m.loc(), 'access to union member `%s` without an established tag (no enclosing `type == %s` test, case arm or preceding tag store)' % (m.n, want))
             continue
